@@ -108,6 +108,7 @@ type PropImpl struct {
 	Race  bool
 	Gen   func(r *Rng, idx int, tier string) *World
 	Exec  func(w *World, st *Stats) (*Violation, RunInfo)
+	NoRecheck bool // worlds examine first use of process-wide state: no in-process re-execution
 	// Lists used by the generic minimiser: which op lists may be shrunk.
 }
 
